@@ -242,6 +242,9 @@ pub struct Plan {
     pub own_id: String,
     pub tokio_seed: u64,
     pub fs_yield_pm: u32,
+    /// per-mille chance of a yield right before each channel send/receive inside rdest
+    #[serde(default)]
+    pub sched_yield_pm: u32,
     pub disk_fail_writes: Vec<u64>,
     pub disk_fail_reads: Vec<u64>,
     /// piece files left in the directory by an earlier, interrupted run: (piece, kind) with kind
